@@ -16,6 +16,31 @@ from .values import (ARR, FALSE, INT, MAXLEN, NONE, TRUE, HObj, Lit, Unsupported
                      VInt, VNone, VRef, VStr, VTuple, VUnion, View, fresh, mkbool, mkint, STR)
 
 
+def const_eval(node, env):
+    """literal data of the contract DSL: constants, names of earlier constants, +, containers"""
+    if isinstance(node, ast.Constant):
+        return node.value
+    if isinstance(node, ast.Name):
+        if node.id in env:
+            return env[node.id]
+        raise ValueError(f"name {node.id} is not a DSL constant")
+    if isinstance(node, ast.BinOp) and isinstance(node.op, ast.Add):
+        return const_eval(node.left, env) + const_eval(node.right, env)
+    if isinstance(node, ast.Dict):
+        out = {}
+        for k, v in zip(node.keys, node.values):
+            if k is None:
+                out.update(const_eval(v, env))
+            else:
+                out[const_eval(k, env)] = const_eval(v, env)
+        return out
+    if isinstance(node, (ast.List, ast.Tuple)):
+        return [const_eval(x, env) for x in node.elts]
+    if isinstance(node, ast.UnaryOp) and isinstance(node.op, ast.USub):
+        return -const_eval(node.operand, env)
+    raise ValueError(f"not a DSL constant: {ast.dump(node)[:80]}")
+
+
 class Contract:
     def __init__(self, target, kw, module):
         self.target = target
@@ -38,6 +63,7 @@ class Contract:
         self.covers = kw.get("covers", {})
         self.notes = kw.get("notes", "")
         self.calls_inline = set(kw.get("calls_inline", []))
+        self.reveal = set(kw.get("reveal", []))
         self._exprs = {}
 
     def expr(self, src):
@@ -56,6 +82,7 @@ class ContractSet:
         self.lemmas = {}
         self.fields = {}
         self.modules = {}
+        self.opaque = {}
         self.old_vals = None
         self.entry_frame = None
         self.active = []            # stack of contracts being verified/applied
@@ -74,13 +101,23 @@ class ContractSet:
             if m.defs[k][0] == "from" and m.defs[k][1] == "pyvc.dsl":
                 del m.defs[k]
         self.modules[name] = m
+        env = {}
         for node in m.tree.body:
+            if isinstance(node, ast.Assign) and len(node.targets) == 1 and isinstance(node.targets[0], ast.Name):
+                try:
+                    env[node.targets[0].id] = const_eval(node.value, env)
+                except ValueError:
+                    pass
             if isinstance(node, ast.Expr) and isinstance(node.value, ast.Call) and isinstance(node.value.func, ast.Name):
                 fn = node.value.func.id
+                if fn == "opaque":
+                    nm = const_eval(node.value.args[0], env)
+                    self.opaque[f"{name}.{nm}"] = {k.arg: const_eval(k.value, env) for k in node.value.keywords}
+                    continue
                 if fn not in ("contract", "fields", "lemma"):
                     continue
-                tgt = ast.literal_eval(node.value.args[0])
-                kw = {k.arg: ast.literal_eval(k.value) for k in node.value.keywords}
+                tgt = const_eval(node.value.args[0], env)
+                kw = {k.arg: const_eval(k.value, env) for k in node.value.keywords}
                 if fn == "contract":
                     self.contracts[tgt] = Contract(tgt, kw, m)
                 elif fn == "lemma":
@@ -101,6 +138,31 @@ class ContractSet:
         if cur is not None and qualname in cur.calls_inline:
             return None
         return c
+
+    def opaque_call(self, I, fv, args):
+        """spec function declared opaque: uninterpreted unless revealed by the contract being verified"""
+        info = self.opaque.get(fv.qualname)
+        if info is None:
+            return None
+        cur = self.contracts.get(I.verifying) or self.lemmas.get(I.verifying)
+        short = fv.qualname.split(".")[-1]
+        if cur is not None and short in cur.reveal:
+            return None
+        args = [I.resolve(a) for a in args]
+        if all(isinstance(a, VInt) and a.c is not None for a in args):
+            return None
+        if not all(isinstance(a, VInt) and a.fits_bv() for a in args):
+            raise Unsupported(f"opaque spec function {short}: arguments must be bounded ints")
+        BV = z3.BitVecSort(64)
+        F = z3.Function("spec_" + short, *([BV] * len(args) + [BV]))
+        t = F(*[a.as_bv() for a in args])
+        lo, hi = [int(x, 0) for x in info["rtype"][4:-1].split(",")]
+        fid = ("opq", t.get_id())
+        if fid not in I.path.facts_done:
+            I.path.facts_done.add(fid)
+            I.path.assume(z3.And(t >= lo, t <= hi))
+            I.path.assumption(f"opaque spec function {short}: range {info['rtype']} (lemma {info.get('lemma', short + '.range')})")
+        return VInt(b=t, lo=lo, hi=hi)
 
     # ------------------------------------------------------------------------------------------
     # symbolic inputs
